@@ -12,12 +12,19 @@ def build(chk):
     e = EngB(chk, 'veclen', vopts=dict(nvec=200))
     e.variant('exact')
     e.variant('ufar', uf=['add', 'sub', 'mul', 'div', 'sqrt'])
+    e.variant('ufds', uf=['div', 'sqrt'])
     for n in (2, 3, 4):
         chk.add(e.ob('O1.length_zero_iff_zero_vector.V%df' % n, H, 'h_len_zero_iff_%d' % n, 'Vec%df::length() is 0 exactly for the zero vector, finite and non-negative otherwise (real IEEE arithmetic, correctly rounded sqrtf model, incl. squares that underflow)' % n,
                      unwind=n + 2, bounds='all finite components with |c| <= 2^62', timeout=240, backends=('kissat', 'cadical', 'minisat'), core=(n == 3)))
         chk.add(e.ob('O2.length2_is_dot.V%df' % n, H, 'h_len2_is_dot_%d' % n, 'length2() == dot(v,v) bit for bit', unwind=n + 2, variant='ufar', defines=('UF_ARITH',), bounds='all bit patterns (FP operations uninterpreted on both sides)', timeout=120, backends=('z3', 'kissat', 'minisat')))
         chk.add(e.ob('O3.normalize_skeleton.V%df' % n, H, 'h_normalize_skeleton_%d' % n, 'normalize/normalized/Exc/NonNull: each component is x_i / length() with one shared length (division, not reciprocal); zero-length handling; Exc throws domain_error iff length()==0',
                      variant='ufar', defines=('UF_ARITH',), unwind=n + 2, bounds='all bit patterns (FP + - * / sqrt uninterpreted on both sides)', timeout=240, backends=('z3', 'kissat', 'minisat')))
+    for n in (2, 3, 4):
+        for rng, rname in ((0, 'tiny'), (1, 'normal')):
+            for k in sorted({0, n - 1}):
+                chk.add(e.ob('O1.length_axis_accuracy.V%df.%s.k%d' % (n, rname, k), H, 'h_len_axis_%d' % n, 'Vec%df::length() of a vector whose only non-zero component c sits at index %d is |c| to within 2 ulps on IEEE floats (%s): the dispatch between the sqrt path and lengthTiny loses no accuracy' % (n, k, 'c*c subnormal, underflowing, or below 2*FLT_MIN' if rng == 0 else 'c*c normal'),
+                             defines=('AXIS_K=%d' % k, 'AXIS_RANGE=%d' % rng) + (('UF_DS',) if rng == 0 else ()), variant='ufds' if rng == 0 else 'exact', fallback='exact' if rng == 0 else None, fallback_kw=dict(defines=('AXIS_K=%d' % k, 'AXIS_RANGE=%d' % rng)), unwind=n + 2, bounds='all c with |c| < 2^-63' if rng == 0 else 'all c with 2^-63 <= |c| <= 2^62', timeout=300, backends=('kissat', 'cadical', 'minisat'),
+                             tier='quick' if rng == 0 else 'thorough', core=(rng == 0)))
     chk.add(e.ob('O2.length_embed_2_in_3', H, 'h_len_dim_embed_23', 'Vec3(x,y,0).length() == Vec2(x,y).length() bit for bit (catches an edit to one per-dimension copy of the threshold / lengthTiny)', unwind=4, bounds='all float bit patterns',
                  timeout=600, backends=('kissat', 'cadical'), tier='thorough', core=False))
     chk.add(e.ob('O2.length_embed_3_in_4', H, 'h_len_dim_embed_34', 'Vec4(x,y,z,0).length() == Vec3(x,y,z).length() bit for bit', unwind=5, bounds='all float bit patterns', timeout=600, backends=('kissat', 'cadical'), tier='thorough', core=False))
